@@ -13,7 +13,7 @@ Property: der(c)=0 is d/dt c along the trajectory, i.e. c(t) must be constant.  
 trajectory is evaluated for a random decision vector; nothing in opti.g removes the freedom.)
 """
 import sys
-sys.path.insert(0, '/tmp/nx_pydeps')   # networkx (optional dependency of SplineMethod)
+sys.path.insert(0, '/verif/pydeps')   # networkx (optional dependency of SplineMethod)
 import numpy as np, casadi as ca
 from rockit import Ocp, SplineMethod
 
